@@ -16,7 +16,7 @@ package gonnx
 //@        (vname(gins(m)[i]) in m.parameters || (vname(gins(m)[i]) in inputs && fits(inputs[vname(gins(m)[i])], gins(m)[i])))
 
 //@ func (*Model).validateShapes
-//@   tags C13
+//@   tags C13,C02
 //@   requires m != nil && m.mp != nil
 //@   scope supplied_tensors_non_nil: forall name string :: name in inputTensors ==> inputTensors[name] != nil
 //@   ensures accept_iff: m.mp.Graph != nil ==> ((err == nil) <==> accepts(m, inputTensors))
@@ -69,7 +69,7 @@ package gonnx
 //@ spec gouts(m *Model) []*onnx.ValueInfoProto = m.mp.Graph.Output
 
 //@ func getInputTensorsForNode
-//@   tags C01
+//@   tags C01,C02
 //@   ensures gathered: err == nil ==> len(result) == len(names) && (forall k :: 0 <= k && k < len(names) ==>
 //@          (names[k] == "" ==> result[k] == nil) && (names[k] != "" ==> names[k] in tensors && result[k] == tensors[names[k]]))
 //@   ensures refused_iff_unknown: (err == nil) <==> (forall k :: 0 <= k && k < len(names) ==> names[k] == "" || names[k] in tensors)
@@ -78,7 +78,7 @@ package gonnx
 //@          (forall k :: 0 <= k && k < $i ==> (names[k] == "" ==> inputTensors[k] == nil) && (names[k] != "" ==> names[k] in tensors && inputTensors[k] == tensors[names[k]]))
 
 //@ func setOutputTensorsOfNode
-//@   tags C01
+//@   tags C01,C02
 //@   requires tensors != nil
 //@   modifies tensors
 //@   ensures arity: (err == nil) <==> len(names) == len(outputTensors)
